@@ -1,6 +1,6 @@
 PROP = dict(
     harness="c18", level="exploration",
-    quick=dict(cases=40000, max_size=60, workers=8),
+    quick=dict(cases=160000, max_size=60, workers=16),
     thorough=dict(cases=1200000, max_size=120, workers=16),
     rule=("rapidcheck operation histories over SEVERAL containers sharing one Arena (plain or ArenaTmp static-buffer arena): raw "
           "alloc_oneshot/alloc_reusable/free_reusable/dup, ArenaVector<u32/12-byte/24-byte>, ArenaHash, ArenaTree, ArenaList, ArenaBitSet, "
